@@ -413,8 +413,7 @@ def search(ctx, deep):
             if per_key[f.key] == 1: failures.append(f)
     for cls, detail in I.check_pickle_sets():
         evals += 1
-        key = 'pickle-many-to-many-set-unpickles-empty' if (cls == 'pickle:set:wrong-items' and detail['kind'].startswith('m2m') and not detail['preload']
-                                                             and detail['after'] == []) else 'unlisted:' + cls
+        key = 'unlisted:' + cls + ':' + detail.get('kind', '')
         f = Failure(key, '%s: %s' % (cls, json.dumps(detail, default=str)[:300]), {'pickle_sets': True, 'class': cls})
         per_key[f.key] = per_key.get(f.key, 0) + 1
         if per_key[f.key] == 1: failures.append(f)
@@ -436,8 +435,7 @@ def search(ctx, deep):
 def replay(ctx, data):
     if data.get('pickle_sets'):
         for cls, detail in I.check_pickle_sets():
-            if cls == 'pickle:set:wrong-items' and detail['kind'].startswith('m2m') and not detail['preload'] and detail['after'] == []:
-                return Failure('pickle-many-to-many-set-unpickles-empty', '%s: %s' % (cls, json.dumps(detail, default=str)[:300]), data)
+            return Failure('unlisted:' + cls + ':' + detail.get('kind', ''), '%s: %s' % (cls, json.dumps(detail, default=str)[:300]), data)
         return None
     if 'pending_scenario' in data:
         for cls, detail in I.check_pending(data['pending_scenario']):
@@ -460,7 +458,7 @@ LEVEL_TEXT = ('Machine-checked proof (Coq 8.16.1) that the composite-key encodin
               'traversal, of the flush that precedes to_dict (scanned from source) and of pickling (Entity.__reduce__/unpickle_entity/_db_set_, QueryResult state, SetInstance wrappers) prove: every '
               'given object is reported in full when no given object is referred to by another given one; keys of pending collection members are reported; only loaded unmodified objects '
               'pickle, unpickled attributes have their pickling-time values unless the unpickling session loaded its own, equal values when both sessions saw the same database, query results '
-              'keep items and order, one-to-many wrappers get their items back. The complements (given object also related; many-to-many wrapper unpickles empty) are recorded findings with '
+              'keep items and order, collection wrappers get their items back. The complement of the first (given object also related) is a recorded finding with '
               'witnesses. to_dict/to_json VALUES against the current session state are checked by differential search on SQLite, not proved.')
 LEVEL_NOTE = ('Trusted: Coq kernel + vm_compute; the translator and source scans; str() injectivity per key column; the hand-written traversal / flush / pickling models (tied by vm_compute '
               'correspondence with real runs, not derived from source); the correspondence harness. Database.to_json (front-end format with schema section), lazy attributes, inheritance are not covered.')
